@@ -61,7 +61,25 @@ package hotline
 //@   loop 1 invariant 0 <= i && i <= len(clearText) && len(obfuText) == len(clearText) && fresh(obfuText)
 //@   loop 1 invariant forall(j, 0, i, obfuText[j] == 255 - old(clearText[j]))
 //@   loop 1 modifies obfuText
+//@   modifies nothing
 //@   nopanic
+
+// ---------------------------------------------------------------------------------
+// Account record (user editor): field count 2, then the name, login (obfuscated), access and --
+// when a password is set -- password-marker fields.  The record is rebuilt on every Read call, so
+// what is emitted must not depend on how far the record has been read: the cursor only
+// positions the output (cursor_flow), advances by what was copied and never moves on an error.
+
+//@ func (a *Account) Read(p []byte) (n int, err error)
+//@   property C01
+//@   cursor_flow readOffset
+//@   requires a != nil && a.readOffset >= 0 && len(a.Name) <= 65535 && len(a.Login) <= 65535
+//@   loop 1 modifies nothing
+//@   loop 1 invariant forall(k, 0, len(fields), fields[k].readOffset == 0 && len(fields[k].Data) <= 65535 && u16(bytes(fields[k].FieldSize)) == len(fields[k].Data))
+//@   ensures err == nil ==> a.readOffset == old(a.readOffset) + n && n <= len(p)
+//@   ensures err != nil ==> n == 0 && a.readOffset == old(a.readOffset)
+//@   before call golang.org/x/crypto/bcrypt.CompareHashAndPassword assert len(arg1) == 0
+//@   modifies a.readOffset, p
 
 // ---------------------------------------------------------------------------------
 // User name with info (300): user ID 2, icon ID 2, flags 2, name size 2, name
@@ -384,6 +402,16 @@ package hotline
 //@   before any call io.CopyN assert writer_kind(arg0) != 1 || reader_kind(arg1) == 2
 //@   before any call io.Copy assert writer_kind(arg0) != 1 || reader_kind(arg1) == 2
 //@   before call (io.Reader).Read assert false
+
+// C09 / C10: how much of the upload stream the header parser consumes is what the stream itself
+// declares: the information fork is exactly the DataSize bytes announced by its fork header (a
+// client may omit the comment part), read in one piece from the connection and parsed from that
+// buffer; nothing else is read between the two fork headers.
+//@ func (ffo *flattenedFileObject) ReadFrom(r io.Reader) (n int64, err error)
+//@   property C09 C10
+//@   before call io.ReadFull#1 assert same(arg0, r) && len(arg1) == u32(bytes(ffo.FlatFileInformationForkHeader.DataSize))
+//@   before any call io.ReadFull#2 assert false
+//@   before call bytes.NewReader assert same(arg0, callarg("io.ReadFull#1", 1))
 
 //@ func UploadFolderHandler(rwc io.ReadWriter, fullPath string, fileTransfer *FileTransfer, fileStore FileStore, rLogger *slog.Logger, preserveForks bool) (err error)
 //@   before any call io.CopyN assert writer_kind(arg0) != 1 || reader_kind(arg1) == 2
@@ -886,6 +914,7 @@ package hotline
 //@   loop 1 modifies nothing
 
 //@ func (t *Transaction) Read(p []byte) (n int, err error)
+//@   cursor_flow readOffset
 //@   requires t != nil && t.readOffset >= 0 && len(t.Fields) <= 65535
 //@   requires forall(k, 0, len(t.Fields), t.Fields[k].readOffset >= 0 && len(t.Fields[k].Data) <= 65535 && u16(bytes(t.Fields[k].FieldSize)) == len(t.Fields[k].Data))
 //@   ensures err == nil ==> t.readOffset == old(t.readOffset) + n && n <= len(p)
@@ -963,7 +992,7 @@ package hotline
 //@   before call hotline.NewField assert arg0[0] == 0 && arg0[1] == 103 && ptsto(arg1, cc.ID) && len(arg1) == 2
 //@   before call (*hotline.ClientConn).NotifyOthers assert arg0 == cc
 //@   loop 1 reaches send
-//@   ensures called("Close")
+//@   ensures called("Close") && called("NotifyOthers") && called("(hotline.ClientManager).Delete")
 
 // A broadcast builds one transaction of the given type per registered client, addressed to it.
 
@@ -1062,6 +1091,19 @@ package hotline
 //@ func HashAndSalt(pwd []byte) (r string)
 //@   property C04 C15
 //@   before call golang.org/x/crypto/bcrypt.GenerateFromPassword assert same(arg0, pwd)
+
+// C18: a decoded news path has exactly as many components as its count field says -- one per
+// scanned name, empty names included -- so the component a request addresses last is the one the
+// client sent last.
+//@ func (f *Field) DecodeNewsPath() (r []string, err error)
+//@   property C01 C18
+//@   requires f != nil && (len(f.Data) == 0 || len(f.Data) >= 2)
+//@   ensures err == nil
+//@   ensures len(f.Data) >= 2 ==> len(r) == old(u16(bytes(f.Data), 0))
+//@   ensures len(f.Data) == 0 ==> len(r) == 0
+//@   loop 1 invariant 0 <= i && i <= pathCount && len(paths) == i && pathCount == old(u16(bytes(f.Data), 0))
+//@   loop 1 modifies nothing
+//@   modifies nothing
 
 // C05 / C07: the decoded path has exactly as many items as its count field says.
 //@ func (fp *FilePath) Write(b []byte) (n int, err error)
